@@ -165,6 +165,8 @@ class World:
         b = float(b)
         if a != a or b != b:
             return (a != a) and (b != b)
+        if a in (float("inf"), float("-inf")) or b in (float("inf"), float("-inf")):
+            return a == b  # an infinite entry equals only itself (float64 runs only: the exact-real model has no infinities)
         return abs(a - b) <= RTOL * max(self.floor, abs(a), abs(b))
 
     def same(self, a, b):
